@@ -167,6 +167,7 @@ static int cif_container_create_loop_internal(
         SET_RESULT(CIF_MEMORY_ERROR);
     } else {
 
+        temp->names = NULL;  /* cif_loop_free() examines this member */
         temp->category = cif_u_strdup(category);
         if ((category != NULL) && (temp->category == NULL)) {
             SET_RESULT(CIF_MEMORY_ERROR);
@@ -792,6 +793,7 @@ int cif_container_get_category_loop(
     if (temp == NULL) {
         SET_RESULT(CIF_MEMORY_ERROR);
     } else {
+        temp->names = NULL;  /* cif_loop_free() examines this member */
         temp->category = cif_u_strdup(category);
         if (temp->category == NULL) {
             SET_RESULT(CIF_MEMORY_ERROR);
